@@ -80,23 +80,25 @@ theorem loopFloat_ok (A : FArith) (hA : GoodArith A) (size b : Nat) (hb : 2 ≤ 
         intro hle
         have := hA.mono _ _ hle
         omega
-      have hS : S = 4503599627370496 := by simp [S]
-      have hup : place + bs1 ≤ (size - 1) * S := by
-        rw [hS] at hbs1 hX ⊢; omega
+      have hSpos : 0 < S := Nat.two_pow_pos 52
+      have h2S : 2 * S ≤ b * S := Nat.mul_le_mul_right S hb
+      have hsub : (size - 1) * S = size * S - S := by rw [Nat.sub_mul, Nat.one_mul]
+      have hSle : S ≤ size * S := Nat.le_mul_of_pos_left S (by omega)
+      have hup : place + bs1 ≤ (size - 1) * S := by rw [hsub]; omega
       have hp'le : A.rnd (place + bs1) ≤ (size - 1) * S := by
         have := hA.mono _ _ hup
         rwa [hA.fixInt (size - 1) (by omega)] at this
-      have hlow : (place / S + b) * S ≤ place + bs1 := by
-        rw [hS] at hbs1 ⊢; omega
+      have hdm : place / S * S ≤ place := Nat.div_mul_le_self place S
+      have hlow : (place / S + b) * S ≤ place + bs1 := by rw [Nat.add_mul]; omega
       have hlow2 : place / S + b < size := by
-        rw [hS] at hlow hup ⊢; omega
+        apply Nat.lt_of_mul_lt_mul_right (a := S)
+        omega
       have hp'ge : (place / S + b) * S ≤ A.rnd (place + bs1) := by
         have := hA.mono _ _ hlow
         rwa [hA.fixInt _ (by omega)] at this
-      have h1 : place / S + b ≤ A.rnd (place + bs1) / S := by
-        rw [hS] at hp'ge ⊢; omega
+      have h1 : place / S + b ≤ A.rnd (place + bs1) / S := (Nat.le_div_iff_mul_le hSpos).mpr hp'ge
       have h2 : A.rnd (place + bs1) / S < size := by
-        rw [hS] at hp'le ⊢; omega
+        rw [Nat.div_lt_iff_lt_mul hSpos]; omega
       obtain ⟨r, hr, hpw, hlt⟩ := ih (A.rnd (place + bs1)) ⟨h2, by omega⟩
       refine ⟨A.rnd (place + bs1) / S :: r, by simp [hr], ?_, ?_⟩
       · rw [List.pairwise_cons]
